@@ -254,7 +254,9 @@ def one_upgrad(ctx: Ctx):
     # absolute defect must vanish with reg_eps (separates UPGrad from a non-linear look-alike)
     A_small = ratios[-1] * math.sqrt(ladder[-1])
     A_big = ratios[0] * math.sqrt(ladder[0])
-    if A_big > 1e-9 and A_small > 0.05 * A_big + 1e-5:      # 1e-5: float noise of the QP at reg_eps = 1e-8 (kappa = 1e8)
+    # 2e-4: float noise of the QP at reg_eps = 1e-8 (kappa = 1e8) — observed up to 3.2e-5 on the unchanged tree (once in 86 000
+    # thorough evaluations; the allowance was 1e-5)
+    if A_big > 1e-9 and A_small > 0.05 * A_big + 2e-4:
         ctx.violation(f"UPGrad: linearity defect does not vanish as reg_eps -> 0: relative defects {A_big:.3e} (reg 1e-2) "
                       f"-> {A_small:.3e} (reg 1e-8)", rp)
 
